@@ -74,7 +74,7 @@ def to_torch_marginals(m):
 
 
 def cases(rng, tier):
-    n = {"quick": 200, "thorough": 3500, "search": 1000}[tier]
+    n = {"quick": 300, "thorough": 5000, "search": 1500}[tier]
     out = []
     for _ in range(n):
         N = rng.choice([1, 2, 2, 3, 3, 3, 4])
@@ -147,11 +147,11 @@ def run_case(ctx, case):
         ctx.count("fail:" + op)
         ctx.oracle("%s: %s" % (op, what), case, cls={"op": op, "predicate": pcls + extra})
 
-    def call(op, fn):
+    def call(op, fn, pre=""):
         r = with_dd(dd, lambda: safe(fn))
         if r[0] == "err":
             ctx.count("impl_raise:%s:%s" % (op, r[1]))
-            ctx.oracle("%s raised %s: %s" % (op, r[1], r[2]), case, cls={"op": op, "predicate": pcls + " (raises %s)" % r[1]})
+            ctx.oracle("%s raised %s: %s" % (op, r[1], r[2]), case, cls={"op": op, "predicate": pre + pcls + " (raises %s)" % r[1]})
             return None
         return r[1]
 
@@ -174,7 +174,7 @@ def run_case(ctx, case):
     if a is None:
         return
     operands_intact("anova_decomposition")
-    ad = call("anova_decomposition(...).torch()", lambda: as_np(a))
+    ad = call("anova_decomposition", lambda: as_np(a))     # decompressing the returned tensor
     if ad is None:
         return
     exp = np.zeros(tuple(I + 1 for I in shape))
@@ -242,16 +242,17 @@ def run_case(ctx, case):
         full = sum((np.broadcast_to(terms[S], x.shape) for S in sel), np.zeros(x.shape))
         mextra = "; mask %s" % ("with Tucker factors" if any(U is not None for U in mask.Us) else "plain TT")
         for keepdim in (True, False):
-            op = "truncate_anova(keepdim=%s)" % keepdim
+            op = "truncate_anova"
+            kd = "keepdim=%s; " % keepdim
             ctx.count("truncate:%s:%s" % ("all dropped" if not used else ("some dropped" if len(used) < N else "none dropped"), keepdim))
-            r = call(op, lambda: as_np(tn.truncate_anova(tt, mask, keepdim=keepdim, marginals=marg)))
+            r = call(op, lambda: as_np(tn.truncate_anova(tt, mask, keepdim=keepdim, marginals=marg)), kd)
             operands_intact(op)
             if r is None:
                 continue
             e = full if keepdim else full[tuple(slice(None) if n in used else 0 for n in range(N))]
             ok, err = near(r, e)
             if not ok:
-                what = "result differs from the sum of the selected terms %s (%s)" % ([list(S) for S in sel], err)
+                what = "keepdim=%s: result differs from the sum of the selected terms %s (%s)" % (keepdim, [list(S) for S in sel], err)
                 # diagnosis (names the class only): does the same call pass with the un-rounded, factor-free mask?
                 if any(U is not None for U in mask.Us):
                     r2 = with_dd(dd, lambda: safe(lambda: as_np(tn.truncate_anova(tt, L.build(case["mask"], N, tn.symbols(N), None),
@@ -259,9 +260,9 @@ def run_case(ctx, case):
                     if r2[0] == "ok" and near(r2[1], e)[0]:
                         ctx.count("fail:" + op)
                         ctx.oracle("%s: %s; passes with the factor-free mask" % (op, what), case,
-                                   cls={"op": op, "predicate": "mask has Tucker factors (e.g. after mask.round())"})
+                                   cls={"op": op, "predicate": kd + "mask has Tucker factors (e.g. after mask.round())"})
                         continue
-                fail(op, what, mextra)
+                fail(op, what, "; " + kd.rstrip("; ") + mextra)
     else:
         ctx.count("mask_unusable")   # Boolean formulas are C15's business
 
